@@ -479,6 +479,9 @@ def run(pid, fn, tier, seed, assumptions):
             detail.update(kind="universe", state=tlaval_py(states[i]), seed=jobs[i][1])
             ck.violation(tags | universe_tags(states[i]), detail)
     ck.note("universes", len(states))
+    if pid in ("C05", "C12"):
+        from . import typeres
+        typeres.run(ck, tier, "definition" if pid == "C05" else "completion")
     if agg:
         ck.note("cursor_positions_checked_and_failed_by_association_path", {k: {"checked": v[0], "failed": v[1]} for k, v in sorted(agg.items())})
     for s in states[:2]:
